@@ -97,6 +97,7 @@ type genOpts struct {
 	axisKinds           []string // cc, cc2 (bidirectional), pitch_bend, key, key1 (one sided), none
 	axisKindsPerMapping bool     // draw the kind of every axis anew in every further mapping
 	edgeNotes           bool     // key-emulating axes may use notes next to 0 / 127
+	analogSubs          bool     // spread the axes over the sub-handlers (one analog section each)
 	handlers            int
 }
 
@@ -235,7 +236,33 @@ func baseDesc(r *simrt.Rng, o genOpts) *model.Desc {
 				}
 				sa.Axes = append(sa.Axes, ax)
 			}
-			m.Analog = append(m.Analog, sa)
+			if o.analogSubs && len(d.Handlers) > 1 {
+				// one analog section per sub-handler; an axis code always belongs to the same sub-handler
+				pos := map[uint16]int{}
+				for ai, an := range axisNames {
+					pos[absCode(an)] = ai
+				}
+				parts := make([]model.SubAnalog, len(d.Handlers))
+				for hi := range parts {
+					parts[hi] = model.SubAnalog{Sub: d.Handlers[hi]}
+					if hi == 0 {
+						parts[hi].DefaultDZ = sa.DefaultDZ
+					} else if r.Chance(0.5) {
+						parts[hi].DefaultDZ = fp([]float64{0, 0.1, 0.25}[r.Intn(3)])
+					}
+				}
+				for _, ax := range sa.Axes {
+					hi := pos[ax.Code] % len(d.Handlers)
+					parts[hi].Axes = append(parts[hi].Axes, ax)
+				}
+				for _, p := range parts {
+					if len(p.Axes) > 0 || r.Chance(0.3) {
+						m.Analog = append(m.Analog, p)
+					}
+				}
+			} else {
+				m.Analog = append(m.Analog, sa)
+			}
 		}
 		d.Mappings = append(d.Mappings, m)
 	}
@@ -322,10 +349,23 @@ type scriptGen struct {
 	out     []model.Event
 	nOct    int // presses of octave / semitone actions so far (upper bound of the excursion)
 	nSemi   int
+	axH     map[uint16]int // handler index of every axis code
 }
 
 func newScriptGen(r *simrt.Rng, d *model.Desc) *scriptGen {
 	g := &scriptGen{r: r, d: d, down: map[uint16]bool{}, handler: map[uint16]int{}, actDown: map[string]bool{}}
+	g.axH = map[uint16]int{}
+	for _, m := range d.Mappings {
+		for _, sa := range m.Analog {
+			for i, hs := range d.Handlers {
+				if hs == sa.Sub {
+					for _, a := range sa.Axes {
+						g.axH[a.Code] = i
+					}
+				}
+			}
+		}
+	}
 	seen := map[uint16]bool{}
 	for _, m := range d.Mappings {
 		for _, sk := range m.Keys {
